@@ -398,9 +398,17 @@ func (h *StateHandler) UndeleteBlob(id core.BlobID, term uint64) core.Error {
 	return res.Err
 }
 
-// FinishDelete permanently deletes blobs from the database.
+// FinishDelete permanently deletes blobs from the database, without checking
+// them again when the command is applied.
 func (h *StateHandler) FinishDelete(blobs []core.BlobID) core.Error {
-	pending := h.raft.Propose(cmdToBytes(FinishDeleteCommand{blobs}))
+	return h.FinishDeleteBefore(blobs, 0)
+}
+
+// FinishDeleteBefore permanently deletes those of the given blobs that, at the
+// time the command is applied, are still deleted or expired with respect to
+// cutoff (the unix nanos value that the caller's scan used).
+func (h *StateHandler) FinishDeleteBefore(blobs []core.BlobID, cutoff int64) core.Error {
+	pending := h.raft.Propose(cmdToBytes(FinishDeleteCommand{Blobs: blobs, Cutoff: cutoff}))
 	select {
 	case <-time.After(core.ProposalTimeout):
 		return core.ErrRaftTimeout
